@@ -139,6 +139,8 @@ pub enum Dest {
     Absent,
     /// a regular file with known bytes already sits at the destination
     Existing,
+    /// an absent path on a different filesystem than the cache (hard links cannot cross it)
+    OtherFs,
 }
 
 /// Where a writer is abandoned (C14).
@@ -190,6 +192,11 @@ pub enum BDamage {
     StripNewline(usize),
     /// append raw bytes without adding a separator (torn tail)
     AppendRaw(Vec<u8>),
+    /// append, as a line of its own, a copy of the file's bytes from offset `off` up to the
+    /// next LF (a duplicated fragment starting anywhere inside a record)
+    AppendLineFrom(usize),
+    /// the bucket file is replaced by a directory (every read of it fails)
+    BecomeDir,
 }
 
 #[derive(Clone, Debug, Serialize, Deserialize, PartialEq)]
